@@ -22,7 +22,9 @@ def _c(name, topo, nx, ny, G, geometry=None, options=None, **kw):
         o = {}
     o.update(options or {})
     c = {"name": name, "topo": topo, "nx": nx, "ny": ny, "G": G, "options": o,
-         "family": "circular" if topo in ("CORE", "LIM") else "tokamak"}
+         "family": "circular" if topo in ("CORE", "LIM") else "torpex" if topo == "XPT" else "tokamak"}
+    if topo == "XPT":
+        c["options"] = dict(options or {})
     if geometry:
         c["geometry"] = geometry
     c.update(kw)
@@ -97,6 +99,10 @@ _add(_c("lsn_orth_weak", "LSN", [2, 2], [3, 4, 3], 1, "lsn", dict(orthogonal=Tru
 _add(_c("cdn_orth_weak", "CDN", [2, 2], [3, 3, 3, 3, 3, 3], 1, "cdn", dict(orthogonal=True, xpoint_refine_atol=1e-14, **DN), fpol="quad", psi_scale=0.01))
 C04_EXTRA = ["lsn_orth_weak", "cdn_orth_weak"]
 
+# ---- the isolated X-point (TORPEX, shipped coil set) at a small size
+_add(_c("xpt_orth", "XPT", [2, 2], [3, 3, 3, 3], 1, None, dict(orthogonal=True)))
+_add(_c("xpt_nonorth", "XPT", [2, 2], [3, 3, 3, 3], 1, None, dict(orthogonal=False), yaml="torpex-coils-nonorth.yaml"))
+
 # ---- C07: the x-y-derivative form of the curvature on orthogonal grids, at two resolutions
 XY = {"curvature_type": "curl(b/B) with x-y derivatives"}
 _add(_c("lsn_orth_xy", "LSN", [2, 2], [3, 4, 3], 1, "lsn", dict(orthogonal=True, **XY), fpol="quad", pressure="quad", wall="slanted"))
@@ -125,7 +131,7 @@ ENVELOPE_QUICK = ["env_ny1", "env_g4", "env_nfine5", "env_len_small", "env_nx1",
 ENVELOPE = ENVELOPE_QUICK + ["env_sol_wide", "env_len_big", "env_core_deep", "env_cdn_second_inside", "env_nonorth_n50", "env_sepmult", "env_lim"]
 
 CORE_CAMPAIGN = ["lsn_orth", "usn_orth", "lsn_orth_rev", "lsn_nonorth", "lsn_nonorth_rev", "cdn_orth", "ldn_orth",
-                 "udn_nonorth", "core_orth", "lim_orth", "lsn_orth_x2", "lsn_orth_g2", "lsn_orth_extrap", "udn_orth"]
+                 "udn_nonorth", "core_orth", "lim_orth", "lsn_orth_x2", "lsn_orth_g2", "lsn_orth_extrap", "udn_orth", "xpt_orth"]
 
 # ---- extended campaign (thorough tier) ------------------------------------------------
 _add(_c("usn_nonorth", "USN", [2, 2], [3, 4, 3], 1, "usn", dict(orthogonal=False), fpol="quad"))
@@ -144,7 +150,7 @@ _add(_c("lsn_orth_n50", "LSN", [2, 2], [3, 4, 3], 1, "lsn", dict(orthogonal=True
 _add(_c("lsn_orth_n200", "LSN", [2, 2], [3, 4, 3], 1, "lsn", dict(orthogonal=True, finecontour_Nfine=200), fpol="quad", pressure="quad", wall="slanted"))
 
 EXTENDED_CAMPAIGN = CORE_CAMPAIGN + ["usn_nonorth", "cdn_nonorth", "ldn_nonorth", "lsn_orth_dct", "lsn_orth_g0", "lsn_orth_lop",
-                                     "cdn_orth_uo", "ldn_orth_uo", "core_nonorth", "lim_orth_g2", "lsn_orth_wide", "lsn_orth_n50", "lsn_orth_n200", "lsn_orth_weak"]
+                                     "cdn_orth_uo", "ldn_orth_uo", "core_nonorth", "lim_orth_g2", "lsn_orth_wide", "lsn_orth_n50", "lsn_orth_n200", "lsn_orth_weak", "xpt_nonorth"]
 
 
 def campaign(tier):
